@@ -1,6 +1,7 @@
 import MJ.Model.Serde
 import MJ.Model.Json
 import MJ.Model.ValueSer
+import MJ.Model.JsonSer
 /-! Line driver for C16.
 
   rt <shape> ; <data>             â†’ `<value canon>\t<ok data canon|err|?>`
@@ -9,7 +10,7 @@ import MJ.Model.ValueSer
   jparse <hex>                    â†’ hex of the string the Lean JSON string parser reads from the text
   other lines                     â†’ `-`
 -/
-open MJ.Serde MJ.Json MJ.ValueSer
+open MJ.Serde MJ.Json MJ.ValueSer MJ.JsonSer
 
 abbrev Toks := List String
 
@@ -220,6 +221,10 @@ def enOfKind (kind : String) (n : Nat) : Option En :=
   | "cn" => some .nonEnumerable
   | "ch" => some (.hinted n none)
   | "cw" => some (.hinted (min 1 n) (some n))
+  -- objects whose iterator lies about its length
+  | "l0" => some (.hinted 0 (some 0))
+  | "l1" => some (.hinted (n + 1) (some (n + 1)))
+  | "l2" => some (.hinted (n - 1) (some (n - 1)))
   | _ => none
 
 mutual
@@ -227,6 +232,7 @@ partial def pLV : Toks â†’ Option (LV Ã— Toks)
   | [] => none
   | "undef" :: ts => some (.leaf .undefined, ts)
   | "none" :: ts => some (.leaf .none, ts)
+  | "X" :: ts => some (.leaf .invalid, ts)
   | t :: ts =>
     let rest := (t.drop 1).toString
     match t.toList.head? with
@@ -326,35 +332,35 @@ def sortedChars (t : List Char) : List Char := t.mergeSort (fun a b => a.toNat â
 def handleJson (btree : Bool) (mode : String) (desc : String) (impl : String) : String :=
   match pLV (toks desc) with
   | some (lv, []) =>
-    let v := toV false (normLV btree lv)
-    match jsonOf v with
-    | .refuse => "refuse\t-\t-"
-    | .unmodelled => "?\t-\t-"
-    | .ok j =>
-      let text : Option (List Char) :=
-        match mode with
-        | "tojson" | "tojson_in_html" => some (tojson (writeJ .jinja j))
-        | "tojson_true" => some (tojson (writeJ (.pretty MJ.Gen.tojsonTrueIndent) j))
-        | "tojson_kw3" => some (tojson (writeJ (.pretty 3) j))
-        | "tojson_0" => some (tojson (writeJ (.pretty 0) j))
-        | "auto_json" | "auto_js" => some (writeJ .compact j)
-        | _ => none
-      match text with
-      | none => "?\t-\t-"
-      | some t =>
-        let back := match parseJ t with
-                    | some j' => if j' == j then "back:ok" else "back:differs"
-                    | none => "back:noparse"
-        -- the engine's own text, read by the Lean JSON reader
+    let calls := serCalls (normLV btree lv)
+    let style : Option (Style Ã— Bool) :=
+      match mode with
+      | "tojson" | "tojson_in_html" | "tojson_expr" => some (.jinja, true)
+      | "tojson_true" => some (.pretty MJ.Gen.tojsonTrueIndent, true)
+      | "tojson_kw3" => some (.pretty 3, true)
+      | "tojson_0" => some (.pretty 0, true)
+      | "auto_json" | "auto_js" | "sj_string" | "auto_write" => some (.compact, false)
+      | "sj_pretty" => some (.pretty 2, false)
+      | _ => none
+    match style with
+    | none => "?\t-\t-"
+    | some (st, post) =>
+      match writeCalls st calls with
+      | .refuse => "refuse\t-\t-"
+      | .panic => "panic\t-\t-"
+      | .ok t0 =>
+        let t := if post then tojson t0 else t0
+        let back :=
+          match jOfCall calls with
+          | .ok j =>
+            (match parseJ t with
+             | some j' => if j' == j then "back:ok" else "back:differs"
+             | none => "back:noparse")
+          | _ => "back:noimage"
         let implV :=
           match strOfHex impl with
           | none => "impl:nohex"
-          | some it =>
-            if it == t then "impl:same"
-            else match parseJ it with
-              | none => "impl:noparse"
-              | some ji =>
-                if normJ ji == normJ j && sortedChars it == sortedChars t then "impl:perm" else "impl:differs"
+          | some it => if it == t then "impl:same" else "impl:differs"
         s!"{hexOfStr t}\t{back}\t{implV}"
   | _ => "bad-case\t-\t-"
 
